@@ -41,6 +41,7 @@ def REQUIRED(tier):  # noqa: N802
             "pairs[ttp]": 6, "pairs[qap]": 6, "pairs[instgen]": 1,
             "pairs[control_raw]": 1, "from_log_checks": 20,
             "binpacking_runs_on_custom_instances": 12,
+            "fea_runs_logging_the_h_table": 2,
             "pairs[control_surrogate]": 0 if tier == "quick" else 1}
 
 
@@ -500,6 +501,21 @@ def comb_shard(ctx, count):
     ttp_ex = load_example("ttp_example_experiment_rls_rs")
     qap_ex = load_example("qap_example_experiment_rls_rs")
     objs = objective_classes()
+    # option corners, every shard: the FEA logging its frequency table with
+    # budgets that end before / right after the main loop starts
+    for b in (1, 2, 3):
+        nm = str(rng.choice(["gr17", "burma14", "ulysses16"]))
+        ti = TI.from_resource(nm)
+
+        def build0(ti=ti):
+            sp = Permutations.standard(ti.n_cities)
+            return (Execution().set_solution_space(sp)
+                    .set_algorithm(TSPFEA1p1revn(ti, True))
+                    .set_objective(TourLength(ti)))
+        sd = int(rng.integers(0, 1 << 62))
+        ctx.count("fea_runs_logging_the_h_table")
+        run_pair(ctx, "tsp", {"name": "tsp.fea", "instance": nm, "seed": sd},
+                 build0, b, sd)
     for it in range(count):
         budget = int(rng.choice(BUDGETS))
         seed = int(rng.integers(0, 1 << 62))
@@ -546,10 +562,17 @@ def comb_shard(ctx, count):
             if alg == "fea" and inst.tour_length_upper_bound > 5_000_000:
                 alg = "ea"
 
-            def build(alg=alg, inst=inst):
+            logh = bool(alg == "fea" and rng.integers(2))
+            if logh:
+                ctx.count("fea_runs_logging_the_h_table")
+                if rng.integers(3):
+                    # the table of a run that never enters its main loop
+                    budget = int(rng.choice([1, 1, 2]))
+
+            def build(alg=alg, inst=inst, logh=logh):
                 sp = Permutations.standard(inst.n_cities)
                 a = {"ea": lambda: TSPEA1p1revn(inst),
-                     "fea": lambda: TSPFEA1p1revn(inst),
+                     "fea": lambda: TSPFEA1p1revn(inst, logh),
                      "rls": lambda: RLS(Op0Shuffle(sp), Op1Swap2())}[alg]()
                 return (Execution().set_solution_space(sp).set_algorithm(a)
                         .set_objective(TourLength(inst)))
@@ -578,10 +601,17 @@ def comb_shard(ctx, count):
             if alg == "fea" and inst.tour_length_upper_bound > 5_000_000:
                 alg = "ea"
 
-            def build2(alg=alg, inst=inst):
+            logh = bool(alg == "fea" and rng.integers(2))
+            if logh:
+                ctx.count("fea_runs_logging_the_h_table")
+                if rng.integers(3):
+                    # the table of a run that never enters its main loop
+                    budget = int(rng.choice([1, 1, 2]))
+
+            def build2(alg=alg, inst=inst, logh=logh):
                 sp = Permutations.standard(inst.n_cities)
                 a = TSPEA1p1revn(inst) if alg == "ea" else \
-                    TSPFEA1p1revn(inst)
+                    TSPFEA1p1revn(inst, logh)
                 return (Execution().set_solution_space(sp).set_algorithm(a)
                         .set_objective(TourLength(inst)))
             setup = {"name": f"tsp.{alg}", "instance": name, "seed": seed}
